@@ -697,6 +697,15 @@ def grid_range(facts, res):
     def point(e, integer=False):
         return Iv(e, e, False, integer, q=norm(e) if integer else None)
 
+    def caller_form(cls_):
+        """how getIndexFromPosition forms the relative position it hands to getTreeCoordinate: 'corner' (x - corner) or 'centre'"""
+        sub_ = tbf.Result("C06")
+        try:
+            relative_position(facts, sub_)
+        except AnalysisBroken:
+            return "corner"
+        return getattr(relative_position, "form", {}).get(cls_, "corner")
+
     n = 0
     for cls in ("TbfMortonSpaceIndex", "TbfHilbertSpaceIndex"):
         ms = [m for m in facts.methods_of(cls) if m["name"] == "getTreeCoordinate" and tbf.body(m) is not None and not m.get("inst")]
@@ -830,6 +839,12 @@ def grid_range(facts, res):
                             xt, xe = point(e.lo), Iv(x.lo, x.hi, True)
                         elif op == "<":
                             xt, xe = Iv(x.lo, x.hi, True), point(e.lo)
+                    elif e.lo == e.hi and op in (">=", ">", "<", "<=") and all((e.lo - x.lo).subs(g_) > 0 and (x.hi - e.lo).subs(g_) > 0 for g_ in ({N: 4, W: 1}, {N: 1024, W: sympy.Rational(7, 2)})):
+                        # a threshold strictly inside the interval: split there (an open lower end is not tracked: [c, hi] for both > and >=)
+                        below, above = Iv(x.lo, e.lo, op in (">=", "<")), Iv(e.lo, x.hi, x.hi_open)
+                        xt, xe = (above, below) if op in (">=", ">") else (below, above)
+                        for z_ in (xt, xe):
+                            z_.kind = x.kind
                 a = run(then, xt)
                 b = run(els, xe) if els is not None else True
                 if not a and not b:
@@ -880,6 +895,27 @@ def grid_range(facts, res):
                 res.violation(R2, tbf.rel(facts.path_of(s_)), fn["qname"], "cell@%d" % s_["l"][1], s_["l"][1],
                               "with %d cells per dimension a position %s is given the grid coordinate %s instead of %d: the particle is stored in a leaf that does not contain it (its stored position stays where it was), so expansions are evaluated outside the leaf and, in periodic mode, the +-box-width shift is applied relative to the wrong cell"
                               % (nv, ("on the upper face of the box (x = box width)" if qv == nv else "with floor(x / leaf width) = %d" % qv), got, min(qv, nv - 1)))
+        # the same analysis with the relative position allowed to exceed the box width by a rounding error: the relative position is
+        # x - fl(centre - width/2), and the rounded corner can lie below the true one, so a particle inside the closed box (x <= upper face)
+        # can arrive here with a relative position one ulp ABOVE the width - which an `== width` test does not catch
+        R3 = "C06.6.rounded-corner"
+        if caller_form(cls) == "centre":
+            res.instance(R3, "%s" % fn["qname"], facts.loc(fn), "the caller hands over (x - centre) + width/2, which stays in [0, width] under rounding: no slack to consider")
+            continue
+        del rets[:]
+        dlt = sympy.Rational(1, 2 ** 20)
+        run(fm.body, Iv(0, W * (1 + dlt)))
+        worst = None
+        for s_, iv, xs in rets:
+            over = norm(iv.hi - (N - 1))
+            if any(over.subs(g) > 0 for g in [{N: v, W: w} for v in (1, 2, 4, 1024) for w in (1, sympy.Rational(7, 2))]):
+                worst = (s_, iv, xs)
+        res.instance(R3, "%s" % fn["qname"], facts.loc(fn), "relative position in [0, W(1+delta)]: %s" % ("a coordinate above N-1 is reachable" if worst else "every return stays in [0, N-1]"))
+        if worst:
+            s_, iv, xs = worst
+            res.violation(R3, tbf.rel(facts.path_of(s_)), fn["qname"], "beyond-face:%s" % cls, s_["l"][1],
+                          "a relative position that exceeds the box width by a rounding error (x - fl(centre - width/2) for a particle ON or one ulp below the upper face, when the rounded corner lies below the true corner) "
+                          "is not caught by the upper-face test and returns a coordinate in %s: one past the grid (the leaf index is then >= the level's upper bound), and `assert(relative position <= width)` fails with assertions on" % (iv,))
     res.floor(R, n, 2, "returns of getTreeCoordinate")
 
 
@@ -933,6 +969,18 @@ def relative_position(facts, res):
                 break
             return strip(e), conv
         arg, conv0 = follow(tbf.call_args(calls[0])[0], [])
+        centre_form = False
+        if arg.get("k") == "BinaryOperator" and arg.get("op") == "+":
+            # (coordinate - box centre) + box width / 2: the form that stays inside [0, width] under rounding (|x - centre| <= width/2 survives
+            # the rounding of the subtraction because rounding is monotone and width/2 is exact, and so does the sum with width/2)
+            a_, b_ = [follow(c_, [])[0] for c_ in kids(arg)]
+            half = [z for z in (a_, b_) if "getBoxWidths" in fm.origin(z) and re.search(r"/2\b|\*0?\.5|/\(?RealType\(2", fm.origin(z).replace(" ", ""))]
+            diff = [z for z in (a_, b_) if z.get("k") == "BinaryOperator" and z.get("op") == "-"]
+            if len(half) == 1 and len(diff) == 1 and "getBoxCenter" in fm.origin(kids(diff[0])[1]):
+                arg = diff[0]
+                centre_form = True
+        relative_position.form = getattr(relative_position, "form", {})
+        relative_position.form[cls] = "centre" if centre_form else "corner"
         if arg.get("k") != "BinaryOperator" or arg.get("op") != "-":
             raise AnalysisBroken("%s: the argument of getTreeCoordinate is not `coordinate - box corner` (%s)" % (fn["qname"], facts.ntext(arg)[:80]))
         lhs, conv = follow(kids(arg)[0], [])
@@ -942,7 +990,7 @@ def relative_position(facts, res):
         res.instance(R, fn["qname"], facts.loc(arg), "relative position = %s - %s ; conversions of the coordinate before the subtraction: %s" % (fm.origin(lhs)[:60], rhs_txt[:60], [t for _x, t in conv] or "none"))
         if not from_pos:
             raise AnalysisBroken("%s: the minuend `%s` is not derived from the position parameter" % (fn["qname"], facts.ntext(lhs)[:80]))
-        if "getBoxCorner" not in rhs_txt:
+        if ("getBoxCenter" if centre_form else "getBoxCorner") not in rhs_txt:
             res.violation(R, tbf.rel(facts.path_of(arg)), fn["qname"], "corner", arg["l"][1], "the relative position subtracts `%s`, not the box corner" % rhs_txt[:80])
         if conv:
             x, t = conv[0]
